@@ -926,6 +926,27 @@ class Evaluator:
             return {"map": ("array",), "find": ("none",), "position": ("none",), "all": ("bool", True), "any": ("bool", False)}[short]   # empty range
         if self.concrete_strings and short == "new" and not args and any(x in str(e.get("ty", "")) for x in ("VecDeque<", "Vec<")):
             return ("array",)
+        if args and args[0][0] == "array" and cal.startswith(("core::iter::", "core::slice::", "<core::slice::", "<[", "core::array::", "<core::array::", "alloc::vec::", "<alloc::vec::")):
+            # pure adaptors over a known sequence
+            seq = args[0]
+            if short == "zip" and len(args) == 2 and args[1][0] == "array":
+                return ("array",) + tuple(("tuple", x, y) for x, y in zip(seq[1:], args[1][1:]))
+            if short == "enumerate" and len(args) == 1:
+                return ("array",) + tuple(("tuple", ("int", i_), x) for i_, x in enumerate(seq[1:]))
+            if short in ("take", "skip") and len(args) == 2 and args[1][0] == "int":
+                return ("array",) + (seq[1:1 + args[1][1]] if short == "take" else seq[1 + args[1][1]:])
+            if short == "rev" and len(args) == 1:
+                return ("array",) + tuple(reversed(seq[1:]))
+            if short in ("copied", "cloned") and len(args) == 1:
+                return seq
+            if short == "chain" and len(args) == 2 and args[1][0] == "array":
+                return seq + args[1][1:]
+            if short == "filter" and len(args) == 2:
+                return ("array",) + tuple(x for x in seq[1:] if self.truth(self.apply(args[1], [x])))
+            if short == "count" and len(args) == 1:
+                return ("int", len(seq) - 1)
+            if short == "last" and len(args) == 1:
+                return ("some", seq[-1]) if len(seq) > 1 else ("none",)
         if args and args[0][0] == "array" and (self.concrete_strings or short in ("map", "find", "position")):
             seq = args[0]
             if short == "map" and len(args) == 2:
